@@ -81,9 +81,9 @@ def cover(graph: Graph, root_key, factory, step, project, clone=copy.deepcopy, m
                 queue.clear()
                 break
             tested += 1
-            o2 = clone(obj)
             p = path + [{"op": op, "args": args, "exp": exp}]
             try:
+                o2 = clone(obj)  # a clone may itself exercise the code under test (save / reload)
                 step(o2, op, args, exp, graph.state[k], graph.state[k2])
                 got = project(o2)
                 if canon(got) != k2:
